@@ -426,7 +426,7 @@ func init() {
 		ruleKeyCheck(r)
 		rulePredict(r)
 		// the adapter is a thin layer: the store underneath must behave like a map
-		r.support(grpMap, grpBackpressure, []string{"retain", "reloc-binding", "lookup-both-pools", "pool-swap", "gc-mark-guard", "primary-mark", "free-after-index", "pool-flush-complete"})
+		r.support(grpMap, grpBackpressure, []string{"retain", "reloc-binding", "lookup-both-pools", "pool-swap", "gc-mark-guard", "primary-mark", "free-after-index", "pool-flush-complete", "race", "pool-values-fresh", "published-bytes-immutable"})
 	},
 		"Decides the shape of the thin blockstore adapter (structural necessary conditions of its contract, not round-trip equality of bytes): every store call in a context-taking method is dominated by the ctx.Err()==nil edge and the other edge returns ctx.Err(); the key handed to the store is cid.Hash() of the requested CID/block and the value the block's RawData; a miss returns ipld.ErrNotFound carrying the requested CID and data is returned only on the found edge, Has returns the store's answer unchanged; the store's Put error reaches a return only on the not-ErrKeyExists edge (Put and PutMany agree); Store.GetSize = indexed size − len(key); HashOnRead stores its argument, re-hashing happens only when enabled and then only a verified block is returned, else ErrWrongHash. Not covered: byte equality and sizes (inherited from C01).")
 }
